@@ -6,6 +6,7 @@ CONSTANTS
   Lams <- MCLams
   ValsLo <- MCLo
   ValsHi <- MCHi
+  Kinds = {"arch", "param"}
   MaxDec = 4
   MaxOps = 7
 INVARIANT GramDef
